@@ -427,8 +427,13 @@ BODY_PINS = [
     ('pulse_sequence', '_join_equal_segments', 'pinJoinEqualSegments'),
     ('pulse_sequence', 'remap', 'pinRemap'),
     ('pulse_sequence', 'extend', 'pinExtend'),
+    ('pulse_sequence', '_merge_attrs', 'pinMergeAttrs'),
+    ('pulse_sequence', '_insert_attrs', 'pinInsertAttrs'),
+    ('pulse_sequence', '_default_extend_mapping', 'pinDefaultExtendMapping'),
+    ('pulse_sequence', '_map_identifiers', 'pinMapIdentifiers'),
     ('pulse_sequence', 'concatenate', 'pinConcatenate'),
     ('pulse_sequence', 'concatenate_without_filter_function', 'pinConcatenateWithoutFF'),
+    ('pulse_sequence', '_concatenate_Hamiltonian', 'pinConcatenateHamiltonian'),
     ('pulse_sequence', 'concatenate_periodic', 'pinConcatenatePeriodic'),
     ('pulse_sequence', '_parse_args', 'pinParseArgs'),
     ('pulse_sequence', '_parse_Hamiltonian', 'pinParseHamiltonian'),
